@@ -99,7 +99,10 @@ def check_model(rep, drv, gen, rng, m, text, c):
             if not isinstance(outs["hybrid_rush_larsen"], Exception):
                 rep.count("reference_scheme_raises")
                 continue
-            if isinstance(outs["generalized_rush_larsen"], Exception) and S:
+            # the schemes hybrid is made of on this model: generalized for the stiff states, Euler for the others; where one of
+            # them cannot be evaluated at this point (22.75**(t/4) overflows in Python's float power) neither can hybrid
+            needed = (["generalized_rush_larsen"] if S else []) + (["explicit_euler"] if len(S) < n else [])
+            if any(isinstance(outs[k_], Exception) for k_ in needed):
                 rep.count("reference_scheme_raises")
                 continue
             failing = (f"hybrid_rush_larsen raises {outs['hybrid_rush_larsen']!r}",
